@@ -23,6 +23,7 @@ import (
 	"os/exec"
 	"path/filepath"
 	"runtime"
+	"strconv"
 	"strings"
 	"sync"
 	"syscall"
@@ -38,6 +39,7 @@ import (
 
 	"github.com/ipfs/go-graphsync"
 	"github.com/ipfs/go-graphsync/allocator"
+	"github.com/ipfs/go-graphsync/donotsendfirstblocks"
 	"github.com/ipfs/go-graphsync/listeners"
 	gsmsg "github.com/ipfs/go-graphsync/message"
 	"github.com/ipfs/go-graphsync/messagequeue"
@@ -62,6 +64,37 @@ import (
 type rlLabel struct {
 	K string `json:"k"`           // new rcancel rupdate apause aunpause acancel aupdate gate send hold release
 	A string `json:"a,omitempty"` // new: accept|reject|pause|hookerr; rupdate: ok|ext|err|unpause; gate: cont|pause|err; send: ok|fail
+	// new only: an extension of the request that prepareQuery acts on: skip:<n> = do-not-send-first-blocks n
+	// (negative, 0, small, more than the DAG has), bad:dedup | bad:cids | bad:skip = undecodable data for
+	// dedup-by-key / do-not-send-cids / do-not-send-first-blocks
+	X string `json:"x,omitempty"`
+}
+
+// reqExtensions builds the request extension a "new" label asks for
+func reqExtensions(x string) []graphsync.ExtensionData {
+	switch {
+	case strings.HasPrefix(x, "skip:"):
+		n, _ := strconv.ParseInt(x[5:], 10, 64)
+		return []graphsync.ExtensionData{{Name: graphsync.ExtensionsDoNotSendFirstBlocks, Data: donotsendfirstblocks.EncodeDoNotSendFirstBlocks(n)}}
+	case x == "bad:dedup":
+		return []graphsync.ExtensionData{{Name: graphsync.ExtensionDeDupByKey, Data: basicnode.NewInt(7)}}
+	case x == "bad:cids":
+		return []graphsync.ExtensionData{{Name: graphsync.ExtensionDoNotSendCIDs, Data: basicnode.NewString("junk")}}
+	case x == "bad:skip":
+		return []graphsync.ExtensionData{{Name: graphsync.ExtensionsDoNotSendFirstBlocks, Data: basicnode.NewString("junk")}}
+	}
+	return nil
+}
+
+// newTerm is the model label of a new request: undecodable extension data makes prepareQuery queue
+// RequestFailedUnknown and fail exactly like a request-hook error, unless the hooks already ended the request
+// (not validated / hook error: prepareQuery returns before it looks at the extensions); a well-formed
+// do-not-send-first-blocks value only changes which blocks go on the wire, not the life cycle
+func newTerm(l rlLabel) string {
+	if strings.HasPrefix(l.X, "bad:") && l.A == "accept" {
+		return "LNew HErr"
+	}
+	return labelTerm["new/"+l.A]
 }
 
 type childRes struct {
@@ -576,7 +609,7 @@ func runCase(c rlCase) (steps []string, finalEntry bool, hung bool, why string) 
 			seen = true
 			w.newKind = l.A
 			w.bounded("ProcessRequests", func() {
-				w.rm.ProcessRequests(ctx, w.p, []gsmsg.GraphSyncRequest{gsmsg.NewRequest(w.rid, w.chain.Blocks[0].Cid, dag.AllSelector(), graphsync.Priority(1))})
+				w.rm.ProcessRequests(ctx, w.p, []gsmsg.GraphSyncRequest{gsmsg.NewRequest(w.rid, w.chain.Blocks[0].Cid, dag.AllSelector(), graphsync.Priority(1), reqExtensions(l.X)...)})
 			})
 		case "rcancel":
 			w.bounded("ProcessRequests", func() {
@@ -784,7 +817,11 @@ func runCase(c rlCase) (steps []string, finalEntry bool, hung bool, why string) 
 		hungNow := w.hung
 		w.mu.Unlock()
 		finalEntry = st != 0
-		steps = append(steps, fmt.Sprintf("St (%s) %s", labelTerm[l.K+"/"+l.A], obs))
+		term := labelTerm[l.K+"/"+l.A]
+		if l.K == "new" {
+			term = newTerm(l)
+		}
+		steps = append(steps, fmt.Sprintf("St (%s) %s", term, obs))
 		if hungNow {
 			break
 		}
@@ -832,7 +869,16 @@ func genCase(r *rng.R) rlCase {
 		c.Labels = append(c.Labels, rlLabel{K: "armstart"})
 	}
 	stallFamily := r.P(1, 6)
-	c.Labels = append(c.Labels, rlLabel{K: "new", A: rng.Pick(r, newKinds)})
+	nl := rlLabel{K: "new", A: rng.Pick(r, newKinds)}
+	if !stallFamily && r.P(1, 4) {
+		nl.X = rng.Pick(r, []string{"skip:-1", "skip:-5", "skip:0", "skip:1", "skip:100", "bad:dedup", "bad:cids", "bad:skip"})
+	}
+	if nl.A == "pause" && strings.HasPrefix(nl.X, "bad:") {
+		// a paused request with undecodable extension data sends the pause and then the failure as two
+		// transactions of newRequest: not a label of the model; the variant is generated for the other hook results
+		nl.X = ""
+	}
+	c.Labels = append(c.Labels, nl)
 	if stallFamily {
 		// a response paused while its blocks are unsent; the peer's memory allowance runs out; an update whose
 		// hook answers with extension data (and maybe a rejection) waits for memory in the loop; the message
@@ -956,9 +1002,15 @@ func tagsOf(c rlCase) []string {
 	for _, l := range c.Labels {
 		has[l.K+"/"+l.A] = true
 		has[l.K] = true
+		if l.K == "new" && l.X != "" {
+			has["newext:"+l.X] = true
+			if strings.HasPrefix(l.X, "skip:-") {
+				has["newext:skip-negative"] = true
+			}
+		}
 	}
 	var tags []string
-	for _, k := range []string{"new/accept", "new/reject", "new/pause", "new/hookerr", "send/fail", "rcancel", "rupdate", "apause", "acancel", "aupdate", "gate/pause", "gate/err", "gateh", "finish", "armstart", "updstall", "memfree", "hold"} {
+	for _, k := range []string{"new/accept", "new/reject", "new/pause", "new/hookerr", "send/fail", "rcancel", "rupdate", "apause", "acancel", "aupdate", "gate/pause", "gate/err", "gateh", "finish", "armstart", "updstall", "memfree", "hold", "newext:skip-negative", "newext:skip:0", "newext:skip:1", "newext:skip:100", "newext:bad:dedup", "newext:bad:cids", "newext:bad:skip"} {
 		if has[k] {
 			tags = append(tags, "has:"+k)
 		}
